@@ -517,6 +517,8 @@ VOCAB_TERM["structs"] = dict(VOCAB["structs"], Term=TERM_FULL)
 VOCAB_TERM["consts"] = dict(VOCAB["consts"], VGA=("vga", PAL), **{r: (c, COLOR) for r, c in TERM_CONSTS})
 VOCAB_TERM["fns"] = dict(VOCAB["fns"], **{"Color::Ansi": shape("Ansi", [("in", ANSI)], COLOR)})
 VOCAB_TERM["reserved"] = VOCAB["reserved"] + ["vga", "Ansi"] + [c for _, c in TERM_CONSTS]
+# render_svg over the whole struct: the vocabulary of the helpers (oracle parameter included), only `Term` differs
+VOCAB_FULL = dict(VOCAB, structs=dict(VOCAB["structs"], Term=TERM_FULL))
 TERM_TARGETS = [
     ("new", "Term", "g_svg_term_new", {}),
     ("default", "Term", "g_svg_term_default", {"trait": "Default"}),
@@ -627,6 +629,11 @@ def register(generators, gm):
             out.append(const_defs(src))
             tshapes = {}
             out.append(translate(src, VOCAB_TERM, TERM_TARGETS, "", "", tshapes).lstrip("\n"))
+            # render_svg once more, reading every `self.<field>` from the whole struct (font_family, padding_px and
+            # min_width_px included): Proofs/SvgGen.v proves it equal to g_svg_render on the projections for every
+            # term that keeps svg_tf_consts, i.e. the constants-for-fields reading above is a theorem, not a pin
+            out.append(translate(src, VOCAB_FULL, [("render_svg", "Term", "g_svg_render_full", {"key": "Term::render_svg@full"})],
+                                 "", "", shapes).lstrip("\n"))
             return "\n".join(out) + "\n"
         except TranslateError as e:
             raise gm.GenError(str(e))
